@@ -84,6 +84,7 @@ def spec(fn=None, recursive=False, reads=(), returns='val', unfold=1, kind=None,
 
 def resolve(target):
     """'pkg.mod:Class.meth' -> (function object, defining class or None)."""
+    target = target.split('#', 1)[0]        # 'pkg.mod:func#name' names a further contract on the same function
     modname, qual = target.split(':')
     if '@' in qual:
         from . import slices
